@@ -23,6 +23,9 @@ def check(chk, thorough=False):
     chk.run('C16.j', 'R-GUARD', 'a well-formed block with several targets is not refused: result ids are checked per target (= C12.g)', lambda ob: __import__('sa.props.c12', fromlist=['c12g']).c12g(tree, ob), floor=2)
     chk.run('C16.k', 'R-NOPATH', 'a confidentiality block that cannot be decoded is found (and fails the bundle): every block is indexed under its type code (= C12.j)', lambda ob: __import__('sa.props.c12', fromlist=['c12j']).c12j(tree, ob), floor=2)
     chk.run('C16.l', 'R-SCHEMA', 'a null in the place of an endpoint ID is refused on decode (the AAD re-encodes the primary block and the security source: null would re-encode as dtn:none and still decrypt) (= C08.e clause)', lambda ob: __import__('sa.props.c08', fromlist=['eid_null_refused']).eid_null_refused(tree, ob), floor=1)
+    chk.run('C16.m', 'R-GUARD', 'block data is regenerated from a parsed payload only when there is none: a recovered (possibly empty) plaintext is not overwritten by a stale payload (= C02.d)', lambda ob: __import__('sa.props.c02', fromlist=['c02d']).c02d(tree, ob), floor=3)
+    chk.run('C16.n', 'R-ORDER', 'CRCs are made final after the TX chain has encrypted the targets, directly before the encode (= C08.a)', lambda ob: __import__('sa.props.c08', fromlist=['c08a']).c08a(tree, ob), floor=3)
+    chk.run('C16.o', 'R-TYPE', 'ciphertext taken from a reassembled bundle reaches the COSE library as bytes: the byte-string field normalises a bytearray (folded m2i)', lambda ob: c16o(tree, ob), floor=1)
     chk.run('C16.d', 'R-FLOW', 'BCB uses the same external AAD construction as BIB (= C03.a/b on apply_bcb)', lambda ob: (c03a(tree, ob, 'apply_bcb'), c03b(tree, ob)), floor=8)
 
 
@@ -247,3 +250,22 @@ def c16f(tree, ob):
             ob.violate(SEC, fv.qual, src(a), 'an operation is handed out without its own block number', a, sure=True)
         else:
             ob.site(SEC, a, 'appended operation is the one stamped in this iteration')
+
+
+def c16o(tree, ob):
+    ''' the ciphertext a receiver decrypts is the block data of the target -- after reassembly that data was a bytearray.
+    The byte-string field normalises what is stored into it to bytes; pycose takes exactly bytes (a bytearray is "not a
+    ciphertext": the genuine bundle of a fragmented BCB is deleted with a security failure). '''
+    from .. import absint
+    rel = 'scapy_cbor/fields.py'
+    cls = tree.klass(rel, 'BstrField')
+    m = one([x for x in cls.body if isinstance(x, ast.FunctionDef) and x.name == 'm2i'], 'BstrField.m2i', ob)
+    ob.require(len(m.args.args) == 3, 'BstrField.m2i(self, pkt, x)')
+    out = absint.run(m.body, {m.args.args[2].arg: bytearray(b'ab')}, {})
+    if out.kind == 'return' and type(out.value) is bytes:
+        ob.site(rel, m, 'BstrField.m2i(bytearray) is bytes')
+    elif out.kind == 'return' and isinstance(out.value, bytearray):
+        ob.violate(rel, 'BstrField.m2i', 'm2i(bytearray(...)) -> bytearray', 'the byte-string field keeps a bytearray as it is: the block data of a reassembled bundle (a bytearray) reaches the COSE library, which takes '
+                   'exactly bytes -- the confidentiality block of a genuine fragmented bundle fails and the bundle is deleted', out.node or m, sure=True)
+    else:
+        ob.violate(rel, 'BstrField.m2i', 'm2i(bytearray(...))', 'the byte-string field does not turn a bytearray into bytes', out.node or m)
